@@ -18,6 +18,10 @@
 //!         chunk) is exactly k x read_buffer_size, or that +- 1; the stream is delivered in reads of at most
 //!         read_buffer_size bytes and then STAYS OPEN AND SILENT (the client waits for its replies): the
 //!         run ends when the handler is back in `read` with nothing to read; missing replies = O2/O3/O5
+//!   ovfl  max_buffer_size = read_buffer_size = M in {64, 128, 256, 1024}; a stream with one ECHO frame of
+//!         M - 1, M, M + 1 or 1.5 M bytes behind 0-2 small commands: the `buffer.len() + n > max` arm
+//!         (-ERR buffer overflow, connection closed); total <= M must be answered normally, a frame longer
+//!         than M must end in exactly that error; the model has the arm
 //!   pool  2 .. 33 connections, one after the other, sharing ONE BufferPoolAsync of 2 / 4 / 8 / 64 buffers
 //!         (as all connections of a server do); the first ends badly - EOF in the middle of a frame (for
 //!         short streams: at EVERY cut), the peer closing before / while the reply is written (write
@@ -273,6 +277,13 @@ struct ConnSpec {
     items: Vec<FItem>,
     hold_open: bool,
     write_limit: Option<usize>,
+    max_buf: usize,        // max_buffer_size
+    via_perf_config: bool, // build the ConnectionConfig with ConnectionConfig::from_perf_config
+}
+impl ConnSpec {
+    fn plain(shards: usize, cfg: (usize, usize), rbs: usize, items: Vec<FItem>, hold_open: bool, write_limit: Option<usize>) -> ConnSpec {
+        ConnSpec { shards, cfg, rbs, items, hold_open, write_limit, max_buf: MAXBUF, via_perf_config: false }
+    }
 }
 /// the reads the handler gets for these items with this read buffer
 fn pieces(items: &[FItem], rbs: usize) -> Vec<Vec<u8>> {
@@ -288,18 +299,31 @@ fn pieces(items: &[FItem], rbs: usize) -> Vec<Vec<u8>> {
 }
 /// the connections one after the other, each on a fresh backend, all on ONE buffer pool of `pool_size`
 fn run_seq(env: &Env, pool_size: usize, conns: &[ConnSpec]) -> Vec<Ran> {
+    run_seq_opt(env, pool_size, conns, false, false)
+}
+/// `share_state`: all connections on ONE ShardedActorState (shards of the first); `fresh_pool_each`: every
+/// connection gets a buffer pool of its own (the reference for shared pools)
+fn run_seq_opt(env: &Env, pool_size: usize, conns: &[ConnSpec], share_state: bool, fresh_pool_each: bool) -> Vec<Ran> {
     let r = catch_unwind(AssertUnwindSafe(|| {
         env.rt.block_on(async {
-            let pool = Arc::new(redis_sim::production::BufferPoolAsync::new(pool_size, 8192));
+            let mut pool = Arc::new(redis_sim::production::BufferPoolAsync::new(pool_size, 8192));
+            let shared = if share_state { Some(ShardedActorState::with_shards(conns[0].shards)) } else { None };
             let mut res = Vec::new();
             for (ci, sp) in conns.iter().enumerate() {
-                let state = ShardedActorState::with_shards(sp.shards);
+                if fresh_pool_each {
+                    pool = Arc::new(redis_sim::production::BufferPoolAsync::new(pool_size, 8192));
+                }
+                let state = match &shared { Some(s) => s.clone(), None => ShardedActorState::with_shards(sp.shards) };
                 let written = Arc::new(std::sync::Mutex::new(Vec::new()));
                 let marks = Arc::new(std::sync::Mutex::new(Vec::new()));
                 let idle = Arc::new(std::sync::atomic::AtomicBool::new(false));
                 let stream = FaultStream { items: sp.items.iter().cloned().collect(), hold_open: sp.hold_open, idle: idle.clone(), write_limit: sp.write_limit, accepted: 0, written: written.clone(), marks: marks.clone(), reads: 0 };
                 let acl = Arc::new(parking_lot::RwLock::new(AclManager::new()));
-                let config = ConnectionConfig { max_buffer_size: MAXBUF, read_buffer_size: sp.rbs, min_pipeline_buffer: sp.cfg.0, batch_threshold: sp.cfg.1 };
+                let config = if sp.via_perf_config {
+                    ConnectionConfig::from_perf_config(&redis_sim::production::BufferConfig { read_size: sp.rbs, max_size: sp.max_buf }, &redis_sim::production::BatchingConfig { min_pipeline_buffer: sp.cfg.0, batch_threshold: sp.cfg.1 })
+                } else {
+                    ConnectionConfig { max_buffer_size: sp.max_buf, read_buffer_size: sp.rbs, min_pipeline_buffer: sp.cfg.0, batch_threshold: sp.cfg.1 }
+                };
                 let h = OptimizedConnectionHandler::new(stream, state, format!("verif:{}", ci), pool.clone(), env.metrics.clone(), config, acl, None);
                 let wait_idle = async {
                     loop {
@@ -466,7 +490,8 @@ fn gen_cmd(env: &Env, rng: &mut Rng, in_multi: &mut bool, profile: u32) -> (Stri
             // occasionally a non-canonical but valid length line, or the non-UTF-8 key
             match rng.gen_range(0..12) {
                 0 => {
-                    let mut f = b"*2\r\n$3\r\n".to_vec();
+                    // non-canonical but valid count / length lines: "*+2", "*02", "$+3", "$03", "$+1", "$01"
+                    let mut f = format!("*{}2\r\n${}3\r\n", ["", "", "+", "0"].choose(rng).unwrap(), ["", "", "+", "0"].choose(rng).unwrap()).into_bytes();
                     f.extend_from_slice(&nm);
                     f.extend_from_slice(format!("\r\n${}{}\r\n", ["+", "0", "00"].choose(rng).unwrap(), k.len()).as_bytes());
                     f.extend_from_slice(&k);
@@ -576,13 +601,13 @@ fn gen_empty_tail(env: &Env, rng: &mut Rng) -> Vec<(String, Vec<u8>)> {
 
 /// SETs / LPUSHes of 1-4 KB values, then a deep pipeline whose replies exceed `target` bytes;
 /// returns the frames and whether an MGET (not in the mini backend) was used
-fn gen_bulk(env: &Env, rng: &mut Rng, target: usize) -> (Vec<(String, Vec<u8>)>, bool) {
+fn gen_bulk(env: &Env, rng: &mut Rng, target: usize, huge: Option<usize>) -> (Vec<(String, Vec<u8>)>, bool) {
     let mut frames = Vec::new();
     let nk = rng.gen_range(1..4);
     let mut ks: Vec<(Vec<u8>, usize)> = Vec::new();
     for j in 0..nk {
         let k = env.keys[j % (env.keys.len() - 1)].clone();
-        let n = rng.gen_range(1024..4097);
+        let n = match huge { Some(h) if j == 0 => h, _ => rng.gen_range(1024..4097) };
         let val: Vec<u8> = (0..n).map(|x| b'a' + ((x + j * 7) % 26) as u8).collect();
         frames.push(("set-big".into(), enc(&[[b"SET".as_ref(), b"set", b"sEt"].choose(rng).unwrap(), &k, &val])));
         ks.push((k, n));
@@ -712,6 +737,9 @@ fn cut(bytes: &[u8], cuts: &[usize]) -> Vec<Vec<u8>> {
     v
 }
 
+fn cfg_term_max(c: (usize, usize), max: usize) -> String {
+    format!("(mk_cfg {} {} {})", c.0, c.1, max)
+}
 fn cfg_term(c: (usize, usize)) -> String {
     format!("(mk_cfg {} {} {})", c.0, c.1, MAXBUF)
 }
@@ -755,10 +783,11 @@ fn main() {
             out.count(&format!("rbuf:total_mod_rbs:{}", if delta == 0 { "0 (exact multiple)" } else if delta == 1 { "+1" } else { "-1" }));
             let base: usize = frames.iter().map(|f| f.1.len()).sum();
             let mut padded = None;
+            // length of enc(["ECHO", x]) with |x| = l: "*2\r\n$4\r\nECHO\r\n" (14) + "$" + digits + "\r\n" + l + "\r\n"
+            let flen = |l: usize| 14 + 1 + l.to_string().len() + 2 + l + 2;
             for l in 0..(3 * rbs + 40) {
-                let f = enc(&[b"ECHO", &vec![b'p'; l]]);
-                if (base + f.len()) % rbs == delta {
-                    padded = Some(f);
+                if (base + flen(l)) % rbs == delta {
+                    padded = Some(enc(&[b"ECHO", &vec![b'p'; l]]));
                     break;
                 }
             }
@@ -792,7 +821,7 @@ fn main() {
             let reads = pieces(&items, rbs);
             let ref_chunks: Vec<Vec<u8>> = frames.iter().map(|f| f.1.clone()).collect();
             let reference = run(&env, shards, (1_000_000_000, 2), &ref_chunks);
-            let got = run_seq(&env, 2, &[ConnSpec { shards, cfg, rbs, items, hold_open: waits, write_limit: None }]).remove(0);
+            let got = run_seq(&env, 2, &[ConnSpec { via_perf_config: rbs == 128, ..ConnSpec::plain(shards, cfg, rbs, items, waits, None) }]).remove(0);
             out.impl_checks += 2;
             let d = |got: &Ran| json!({"config": [cfg.0, cfg.1], "shards": shards, "read_buffer_size": rbs, "chunk_lengths": chunks.iter().map(|c| c.len()).collect::<Vec<_>>(), "client_waits": waits, "commands": frames.len(), "labels": frames.iter().map(|f| f.0.clone()).collect::<Vec<_>>(), "got": format!("{:?}", got).chars().take(400).collect::<String>(), "stream": if bytes.len() <= 600 { hex(&bytes) } else { format!("{}...({} bytes)", hex(&bytes[..600]), bytes.len()) }});
             let (w, cum, dead) = match &got {
@@ -839,6 +868,69 @@ fn main() {
             }
             continue;
         }
+        if i % 40 == 37 {
+            // ---- class ovfl: the buffer-overflow arm at its boundary
+            out.count("kind:ovfl");
+            let m = *[64usize, 128, 256, 1024].choose(&mut rng).unwrap();
+            out.count(&format!("ovfl:max_buffer_size:{}", m));
+            let mut frames: Vec<(String, Vec<u8>)> = Vec::new();
+            let mut im = false;
+            for _ in 0..rng.gen_range(0..3) {
+                let f = gen_cmd(&env, &mut rng, &mut im, 0);
+                if f.1.len() < m / 2 {
+                    frames.push(f);
+                }
+            }
+            let want = *[m - 1, m, m, m + 1, m + m / 2].choose(&mut rng).unwrap();
+            // an ECHO frame of exactly `want` bytes (or the nearest length that exists)
+            let mut big = enc(&[b"ECHO", b""]);
+            let flen = |l: usize| 14 + 1 + l.to_string().len() + 2 + l + 2;
+            if let Some(l) = (0..(2 * m)).filter(|l| flen(*l) <= want).last() {
+                big = enc(&[b"ECHO", &vec![b'o'; l]]);
+            }
+            let biglen = big.len();
+            out.count(&format!("ovfl:big_frame:{}", if biglen < m { "M-1 or less" } else if biglen == m { "exactly M" } else if biglen == m + 1 { "M+1" } else { "> M+1" }));
+            let pos = rng.gen_range(0..=frames.len());
+            frames.insert(pos, ("echo-big".into(), big));
+            if rng.gen_bool(0.5) {
+                frames.push(("ping".into(), enc(&[b"PING"])));
+            }
+            let bytes: Vec<u8> = frames.iter().flat_map(|f| f.1.clone()).collect();
+            let items = vec![FItem::Chunk(bytes.clone())];
+            let reads = pieces(&items, m);
+            let ref_chunks: Vec<Vec<u8>> = frames.iter().map(|f| f.1.clone()).collect();
+            let reference = run(&env, shards, (1_000_000_000, 2), &ref_chunks);
+            let got = run_seq(&env, 2, &[ConnSpec { max_buf: m, via_perf_config: rng.gen_bool(0.5), ..ConnSpec::plain(shards, cfg, m, items, false, None) }]).remove(0);
+            out.impl_checks += 2;
+            let d = |got: &Ran| json!({"config": [cfg.0, cfg.1], "shards": shards, "max_buffer_size = read_buffer_size": m, "frame_lengths": frames.iter().map(|f| f.1.len()).collect::<Vec<_>>(), "labels": frames.iter().map(|f| f.0.clone()).collect::<Vec<_>>(), "got": format!("{:?}", match got { Ran::Ok(w, c) => format!("{:?} {:?}", String::from_utf8_lossy(w), c), o => format!("{:?}", o) }).chars().take(700).collect::<String>()});
+            const OVERFLOW: &[u8] = b"-ERR buffer overflow\r\n";
+            let (w, cum, dead) = match &got {
+                Ran::Ok(w, c) => (w.clone(), c.clone(), false),
+                _ => {
+                    out.violation(i, "O1: the handler panicked or hung (class ovfl)", d(&got));
+                    (Vec::new(), Vec::new(), true)
+                }
+            };
+            if let (false, Ran::Ok(ref_out, ref_cum)) = (dead, &reference) {
+                let overflowed = w.ends_with(OVERFLOW);
+                let body = if overflowed { &w[..w.len() - OVERFLOW.len()] } else { &w[..] };
+                // what was written before the error must be the replies of a prefix of the commands
+                let is_prefix = ref_out.starts_with(body) && (body.is_empty() || ref_cum.contains(&body.len()));
+                if !is_prefix || (!overflowed && w != *ref_out) {
+                    out.violation(i, "O7: around max_buffer_size the output is neither the reference output nor replies of a prefix of the commands followed by -ERR buffer overflow", d(&got));
+                } else if bytes.len() <= m && overflowed {
+                    out.violation(i, "O7: -ERR buffer overflow although the whole stream fits max_buffer_size", d(&got));
+                } else if frames.iter().any(|f| f.1.len() > m) && !overflowed {
+                    out.violation(i, "O7: a frame longer than max_buffer_size was accepted", d(&got));
+                }
+            }
+            let term = format!("(KSeg {} {} {} {} {})", cfg_term_max(cfg, m), clist(reads.iter(), |c| chex(c)), clist(cum.iter(), |c| c.to_string()), chex(&w), cbool(dead));
+            out.case(i, term, true, &format!("ovfl{:?}{}{}{}{}", cfg, shards, m, hex(&bytes), hex(&w)));
+            if args.only.is_some() {
+                println!("class ovfl\n{}", serde_json::to_string_pretty(&d(&got)).unwrap());
+            }
+            continue;
+        }
         if i % 40 == 31 {
             // ---- class pool: connections one after the other on one buffer pool; the first one ends badly
             out.count("kind:pool");
@@ -851,6 +943,13 @@ fn main() {
             for _ in 0..rng.gen_range(1..4) {
                 first.push(gen_cmd(&env, &mut rng, &mut im, 1));
             }
+            // one first connection in five carries a value of 17-40 KB: its buffers grow past 2 x 8192 bytes
+            // of capacity and are dropped, not pooled, when the connection ends
+            if rng.gen_range(0..5) == 0 {
+                let n = rng.gen_range(17_000..40_000);
+                first.push(("set-oversized".into(), enc(&[b"SET", &env.keys[0], &vec![b'z'; n]])));
+                out.count("pool:first_connection_outgrows_pooled_buffer");
+            }
             let fbytes: Vec<u8> = first.iter().flat_map(|f| f.1.clone()).collect();
             let mut vim = false;
             let mut victim: Vec<(String, Vec<u8>)> = Vec::new();
@@ -861,6 +960,12 @@ fn main() {
             let vchunks: Vec<Vec<u8>> = if rng.gen_bool(0.6) { vec![vbytes.clone()] } else { cut(&vbytes, &[rng.gen_range(0..=vbytes.len())]).into_iter().filter(|c| !c.is_empty()).collect() };
             let alone = run(&env, shards, cfg, &vchunks);
             out.impl_checks += 1;
+            // one case in four: all connections also share ONE backend (response pools, shard mailboxes);
+            // the reference is the same sequence with a fresh buffer pool per connection; oracle only
+            let share_state = rng.gen_range(0..4) == 0;
+            if share_state {
+                out.count("pool:connections_also_share_the_backend");
+            }
             // how the first connection ends
             let ending = rng.gen_range(0..10);
             let endings: Vec<(String, Vec<FItem>, Option<usize>)> = match ending {
@@ -884,12 +989,13 @@ fn main() {
             let mut shown: Option<(Vec<u8>, Vec<usize>, bool)> = None;
             let mut nseq = 0u64;
             for (ename, items, wl) in &endings {
-                let mut conns = vec![ConnSpec { shards, cfg, rbs: 8192, items: items.clone(), hold_open: false, write_limit: *wl }];
+                let mut conns = vec![ConnSpec::plain(shards, cfg, 8192, items.clone(), false, *wl)];
                 for _ in 0..fillers {
-                    conns.push(ConnSpec { shards: 1, cfg, rbs: 8192, items: vec![FItem::Chunk(enc(&[b"PING"]))], hold_open: false, write_limit: None });
+                    conns.push(ConnSpec::plain(1, cfg, 8192, vec![FItem::Chunk(enc(&[b"PING"]))], false, None));
                 }
-                conns.push(ConnSpec { shards, cfg, rbs: 8192, items: vchunks.iter().map(|c| FItem::Chunk(c.clone())).collect(), hold_open: false, write_limit: None });
-                let res = run_seq(&env, pool_size, &conns);
+                conns.push(ConnSpec::plain(shards, cfg, 8192, vchunks.iter().map(|c| FItem::Chunk(c.clone())).collect(), false, None));
+                let res = run_seq_opt(&env, pool_size, &conns, share_state, false);
+                let alone = if share_state { run_seq_opt(&env, pool_size, &conns, true, true).last().cloned().unwrap_or(Ran::Hang) } else { alone.clone() };
                 nseq += 1;
                 out.impl_checks += conns.len() as u64;
                 let d = |res: &Vec<Ran>| json!({"config": [cfg.0, cfg.1], "pool_buffers": pool_size, "connections": conns.len(), "first_connection": {"stream": String::from_utf8_lossy(&fbytes), "ends": ename}, "last_connection_reads": vchunks.iter().map(|c| String::from_utf8_lossy(c).to_string()).collect::<Vec<_>>(), "last_connection_got": format!("{:?}", res.last().map(|r| match r { Ran::Ok(w, c) => format!("{:?} {:?}", String::from_utf8_lossy(w), c), o => format!("{:?}", o) })), "alone_on_a_fresh_pool": format!("{:?}", match &alone { Ran::Ok(w, c) => format!("{:?} {:?}", String::from_utf8_lossy(w), c), o => format!("{:?}", o) })});
@@ -920,6 +1026,9 @@ fn main() {
                 }
             }
             *out.dist.entry("pool:connection_sequences".into()).or_insert(0) += nseq;
+            if share_state {
+                continue; // the last connection's replies depend on what the earlier ones stored: judged by the oracles only
+            }
             let (w, cum, dead) = shown.unwrap_or((Vec::new(), Vec::new(), true));
             let term = format!("(KSeg {} {} {} {} {})", cfg_term(cfg), clist(vchunks.iter(), |c| chex(c)), clist(cum.iter(), |c| c.to_string()), chex(&w), cbool(dead));
             out.case(i, term, true, &format!("pool{:?}{}{}{}{}", cfg, shards, pool_size, hex(&fbytes), hex(&w)));
@@ -1008,7 +1117,7 @@ fn main() {
             }
             continue;
         }
-        let kind = if i % exh_every == exh_every - 1 { "all2" } else if i % 20 == 7 { "tail" } else if i % 25 == 3 { "bulk" } else if rng.gen_range(0..5) == 0 { "bad" } else { "seg" };
+        let kind = if i % exh_every == exh_every - 1 { "all2" } else if i % 30 == 7 { "tail" } else if i % 25 == 3 { "bulk" } else if rng.gen_range(0..5) == 0 { "bad" } else { "seg" };
         let mut bulk_model = false;
         let st = if kind == "tail" {
             let mut frames = Vec::new();
@@ -1024,8 +1133,14 @@ fn main() {
         } else if kind == "bulk" {
             let target = *[64usize << 10, 128 << 10, 256 << 10].choose(&mut rng).unwrap();
             out.count(&format!("bulk:target_kib:{}", target >> 10));
-            let (frames, mget) = gen_bulk(&env, &mut rng, target);
-            bulk_model = !mget && target == 64 << 10 && rng.gen_range(0..2) == 0;
+            // thorough tier: one bulk case in six stores a value of 64 KiB - 1 .. 900 KB (far above any
+            // plausible optimisation threshold) and reads it back several times
+            let huge = if args.n >= 10000 && rng.gen_range(0..6) == 0 { Some(*[65535usize, 65536, 65537, 131072, 300_000, 900_000].choose(&mut rng).unwrap()) } else { None };
+            if let Some(h) = huge {
+                out.count(&format!("bulk:huge_value_bytes:{}", h));
+            }
+            let (frames, mget) = gen_bulk(&env, &mut rng, if huge.is_some() { target.max(256 << 10) } else { target }, huge);
+            bulk_model = huge.is_none() && !mget && target == 64 << 10 && rng.gen_range(0..2) == 0;
             Stream { frames, bad: None }
         } else {
             gen_stream(&env, &mut rng, kind == "all2", kind == "bad")
@@ -1126,7 +1241,30 @@ fn main() {
                 cut(&bytes, &cs)
             }
         };
-        let chunks: Vec<Vec<u8>> = chunks.into_iter().filter(|c| !c.is_empty()).collect();
+        let mut chunks: Vec<Vec<u8>> = chunks.into_iter().filter(|c| !c.is_empty()).collect();
+        // a third of the malformed cases: the connection must stay usable - after the malformed frame (in a
+        // read of its own, so that nothing of it is left behind) well-formed commands arrive in later reads
+        let mut suffix: Vec<(String, Vec<u8>)> = Vec::new();
+        let mut suffix_expected: Vec<u8> = Vec::new();
+        if kind == "bad" && rng.gen_range(0..3) == 0 {
+            chunks = st.frames.iter().map(|f| f.1.clone()).chain(st.bad.iter().map(|b| b.1.clone())).collect();
+            let mut im = false;
+            for _ in 0..rng.gen_range(1..4) {
+                suffix.push(gen_cmd(&env, &mut rng, &mut im, 1));
+            }
+            for f in &suffix {
+                chunks.push(f.1.clone());
+            }
+            // what the later commands must be answered: the same commands after the well-formed prefix, without the malformed frame
+            let all: Vec<Vec<u8>> = st.frames.iter().map(|f| f.1.clone()).chain(suffix.iter().map(|f| f.1.clone())).collect();
+            if let Ran::Ok(wa, _) = run(&env, shards, (1_000_000_000, 2), &all) {
+                if wa.starts_with(&ref_out) {
+                    suffix_expected = wa[ref_out.len()..].to_vec();
+                }
+            }
+            out.impl_checks += 1;
+            out.count("bad:well-formed_commands_after_the_malformed_frame");
+        }
         out.count(&format!("reads:{}", chunks.len().min(9)));
         let got = run(&env, shards, cfg, &chunks);
         out.impl_checks += 1;
@@ -1165,6 +1303,12 @@ fn main() {
                 } else {
                     // O4
                     let ok_prefix = w.len() >= ref_out.len() && w[..ref_out.len()] == ref_out[..];
+                    let ok_suffix = suffix.is_empty() || (!suffix_expected.is_empty() && w.ends_with(&suffix_expected) && w.len() >= ref_out.len() + suffix_expected.len());
+                    if !ok_suffix {
+                        out.violation(i, "O4: after a malformed frame the connection does not answer later well-formed commands as it would without the malformed frame", detail(&chunks, &got));
+                    }
+                    let w_mid_end = if suffix.is_empty() || !ok_suffix { w.len() } else { w.len() - suffix_expected.len() };
+                    let w = &w[..w_mid_end].to_vec();
                     let tail = if ok_prefix { replies(&w[ref_out.len()..]) } else { None };
                     let ok_tail = match &tail {
                         Some(t) => !t.is_empty() && t.iter().all(|(s, _)| w[ref_out.len() + s] == b'-'),
